@@ -67,6 +67,15 @@ CLAIMED["C03"] = {
     "technique": "contracts on the real templates; per-path VCs by symbolic-scalar execution; polynomial normal form with atan2/sqrt/abs sign-case rules; z3 for angle range and SAFE",
 }
 
+CLAIMED["C13"] = {
+    "text": "Proof over the reals that every constructor (angle, complex, quaternion, angle-axis, roll-pitch-yaw for all angles, parts, sub-group element, raw data) "
+            "stores the promised coefficients / rotation matrix, accessors return them, rotation() is orthonormal with det +1, accessors fed back reproduce "
+            "the element, normalize() yields unit norm, cast keeps the transformation; with assertions the raw-data constructor throws invalid_argument iff "
+            "the norm is outside the threshold (z3 on the path conditions), with NDEBUG never.",
+    "note": _REAL + "A-TRIG/A-SQRT/A-ATAN2. Not decided: cast precision; Eigen isometry->quaternion constructors of SE3/SE_2_3/SGal3 (listed under not_run).",
+    "technique": "contracts on the real constructors/accessors; per-path VCs by symbolic-scalar execution; polynomial normal form; z3 on path conditions for the validation threshold",
+}
+
 NOT_APPLICABLE = {
     "C14": "quantifies over thread schedules; contract verification of one sequential call cannot express or decide data-race freedom (no thread model in any installed deductive back end for this C++ code) - see DESIGN.md section 5",
     "C19": "the oracle is the compiler's accept/reject verdict over a matrix of client programs, not a pre/postcondition of any function - see DESIGN.md section 5",
